@@ -7,7 +7,7 @@
 import json
 import struct
 
-from gen.canon import code_fields, f2hex, hx
+from gen.canon import code_fields, f2hex, hx, istr
 
 
 class Reader(object):
@@ -77,9 +77,9 @@ class Reader(object):
         if c == "S":
             return {"t": "stopiter"}
         if c == "i":
-            return reg({"t": "int", "v": str(self.i32())})
+            return reg({"t": "int", "v": istr(self.i32())})
         if c == "I":
-            return reg({"t": "int", "v": str(struct.unpack("<q", self.take(8))[0])})
+            return reg({"t": "int", "v": istr(struct.unpack("<q", self.take(8))[0])})
         if c == "l":
             n = self.i32()
             v = 0
@@ -87,7 +87,7 @@ class Reader(object):
                 v += struct.unpack("<H", self.take(2))[0] << (15 * j)
             if n < 0:
                 v = -v
-            return reg({"t": "long2" if self.py2 else "int", "v": str(v)})
+            return reg({"t": "long2" if self.py2 else "int", "v": istr(v)})
         if c == "f":
             return reg({"t": "float", "v": f2hex(float(self.take(self.u8()).decode("ascii")))})
         if c == "g":
